@@ -5,6 +5,9 @@ import Mathlib.Data.List.Perm.Basic
 import Mathlib.Data.List.Range
 import Mathlib.Order.WellFounded
 import Mathlib.Order.Fin.Basic
+import Mathlib.Data.Fintype.Basic
+import Mathlib.Data.Fintype.Card
+import Mathlib.Data.Fintype.EquivFin
 
 /-!
 # The sequence theory (SEQ axioms and assumed lemmas) over `List α`
@@ -19,6 +22,8 @@ Dictionary: `s.append(x)` = `s ++ [x]`, `s.remove(x)` = `s.erase x`,
 -/
 
 open List
+
+set_option linter.unusedSectionVars false
 
 variable {α : Type*} [DecidableEq α]
 
@@ -147,7 +152,9 @@ theorem F0_foldAdd_zero (s xs : List α) : foldAdd s xs 0 = s := by
 /-- [F1] one more element added -/
 theorem F1_foldAdd_succ (s xs : List α) {k : Nat} (hk : k < xs.length) :
     foldAdd s xs (k + 1) = add1 (foldAdd s xs k) xs[k] := by
-  simp [foldAdd, List.take_succ_eq_append_getElem hk, List.foldl_append]
+  unfold foldAdd
+  rw [List.take_succ_eq_append_getElem hk, List.foldl_append]
+  rfl
 
 theorem mem_add1 (s : List α) (x y : α) : y ∈ add1 s x ↔ y ∈ s ∨ y = x := by
   unfold add1
@@ -223,7 +230,7 @@ theorem foldl_add1_eq_append (xs : List α) : ∀ s : List α,
     by_cases h : x ∈ s
     · refine ⟨r, ?_, hsub.cons x⟩
       rw [List.foldl_cons, hr, add1, if_pos h]
-    · refine ⟨x :: r, ?_, hsub.cons₂ x⟩
+    · refine ⟨x :: r, ?_, hsub.cons_cons x⟩
       rw [List.foldl_cons, hr, add1, if_neg h, List.append_assoc]
       rfl
 
@@ -273,7 +280,9 @@ theorem E0_eraseFold_zero (s xs : List α) : eraseFold s xs 0 = s := by
 /-- [E1] one more element removed -/
 theorem E1_eraseFold_succ (s xs : List α) {k : Nat} (hk : k < xs.length) :
     eraseFold s xs (k + 1) = (eraseFold s xs k).erase xs[k] := by
-  simp [eraseFold, List.take_succ_eq_append_getElem hk, List.foldl_append]
+  unfold eraseFold
+  rw [List.take_succ_eq_append_getElem hk, List.foldl_append]
+  rfl
 
 /-- removing the elements of `r` one by one from a duplicate-free list keeps exactly the
 elements outside `r`, in order -/
@@ -286,7 +295,7 @@ theorem foldl_erase_eq_filter (r : List α) : ∀ {s : List α}, s.Nodup →
     rw [List.foldl_cons, ih (hs.erase x), hs.erase_eq_filter x, List.filter_filter]
     apply List.filter_congr
     intro y _
-    simp [and_comm]
+    by_cases h1 : y ∈ r <;> by_cases h2 : y = x <;> simp [h1, h2]
 
 /-- [lemma.erase_fold_keep] removing, one by one, the elements that do not satisfy `p`
 leaves exactly those that do, in order -/
@@ -296,6 +305,12 @@ theorem lemma_erase_fold_keep {s : List α} (hs : s.Nodup) (p : α → Prop) [De
   apply List.filter_congr
   intro y hy
   simp [hy]
+
+/-- [lemma.erase_fold_keep] for a Boolean predicate -/
+theorem lemma_erase_fold_keep_bool {s : List α} (hs : s.Nodup) (p : α → Bool) :
+    (s.filter (fun y => !p y)).foldl List.erase s = s.filter p := by
+  have h := lemma_erase_fold_keep hs (fun y => p y = true)
+  simpa using h
 
 /-- [lemma.erase_fold_keep] in the `eraseFold` vocabulary -/
 theorem lemma_erase_fold_keep' {s : List α} (hs : s.Nodup) (p : α → Prop) [DecidablePred p] :
